@@ -182,6 +182,41 @@ impl<'a> Sink for TextSink<'a> {
     }
 }
 
+/// a writer that accepts `left` bytes and then fails every call (a connection that broke)
+pub struct FailingWriter {
+    pub left: usize,
+}
+impl Write for FailingWriter {
+    fn write(&mut self, buf: &[u8]) -> io::Result<usize> {
+        if self.left == 0 {
+            return Err(io::Error::new(io::ErrorKind::BrokenPipe, "harness: writer broke"));
+        }
+        let n = buf.len().min(self.left);
+        self.left -= n;
+        Ok(n)
+    }
+    fn flush(&mut self) -> io::Result<()> {
+        Ok(())
+    }
+}
+/// text encoding into a `FailingWriter`
+pub struct FailingTextSink(pub usize);
+impl Sink for FailingTextSink {
+    fn put<T: ToMysqlValue>(&mut self, v: T) -> io::Result<()> {
+        v.to_mysql_text(&mut FailingWriter { left: self.0 })
+    }
+}
+/// binary encoding into a `FailingWriter`
+pub struct FailingBinSink<'a> {
+    pub left: usize,
+    pub col: &'a Column,
+}
+impl<'a> Sink for FailingBinSink<'a> {
+    fn put<T: ToMysqlValue>(&mut self, v: T) -> io::Result<()> {
+        v.to_mysql_bin(&mut FailingWriter { left: self.left }, self.col)
+    }
+}
+
 pub struct BinSink<'a> {
     pub out: &'a mut Vec<u8>,
     pub col: &'a Column,
